@@ -72,7 +72,8 @@ CLAIMS = {
          "Mon_C14, which plays the server: entries applied per destination in transmission order must leave exactly the "
          "requested set while running and nothing after stop, with correct TTL / endpoint option / destination and refresh "
          "gaps; a spec mutant (StopSubscribe overtaking a queued Subscribe) is caught; the monitor judges real histories over "
-         "IPv4/IPv6 x UDP/TCP eventgroups and three servers", "DESIGN.md §7 C14", TECH, TRUST),
+         "IPv4/IPv6 x UDP/TCP eventgroups and three servers, including stop-subscribes that the application queues with "
+         "call_soon among the library's own callbacks (also explored by TLC)", "DESIGN.md §7 C14", TECH, TRUST),
  "C16": ("model_checking",
          "TLC walks the complete decision table of spec/Service.tla (5280 rows, one state per row) and checks the laws of the "
          "statement on every row (at most one reply, multicast never answered, fire-and-forget never gets a RESPONSE, first "
@@ -86,7 +87,8 @@ CLAIMS = {
          "with their asyncio hop structure, per-destination session ids) against Mon_C17 for all schedules within bounds and "
          "catches the as-shipped one-shot-iterable defect; the monitor judges real SimpleService histories (IPv4/IPv6 "
          "endpoints, notify_once with list / tuple / iterator / generator / dict view, cyclic rounds, refused "
-         "subscriptions, counters next to the wrap); traces validated against SDTrace.tla", "DESIGN.md §7 C17", TECH, TRUST),
+         "subscriptions, counters next to the wrap, the values mapping replaced as a whole with other keys / another order); "
+         "traces validated against SDTrace.tla", "DESIGN.md §7 C17", TECH, TRUST),
  "C01": ("model_checking",
          "TLC checks the round-trip, length, concatenation and truncation laws of Wire.tla (EncMsg/DecMsg/DecAll) on 31932 "
          "enumerated boundary values; the real build / parse / datagram_received are recorded on the boundary domain, on random "
@@ -125,9 +127,9 @@ CLAIMS = {
          "TLC proves that the TLA+ monitor Mon_C04 can never fire on the two-stack specification spec/SD2.tla (two instances of "
          "the stack of SDCore.tla -- offerer with one instance / eventgroup, watcher with watch-all and auto-subscribe "
          "listeners --, a network with loss windows, single drop / duplication / delay, crash / restart and graceful stop / "
-         "start) for every placement of 2 (thorough: 3-4) disturbance steps in the first ten ticks, every order of "
+         "start, a second overlapping auto-subscription that the application may withdraw) for every placement of 2 (thorough: 3-4) disturbance steps in the first ten ticks, every order of "
          "simultaneously due timers and (thorough) every interleaving of the two loops, in finite-TTL and infinite-TTL "
-         "configurations, and that three design deviations are caught; two real stacks on virtual loops with a shared clock and "
+         "configurations, and that four design deviations are caught; two real stacks on virtual loops with a shared clock and "
          "a harness network run swept and seeded fault schedules, judged at every idle instant by the same monitor in TLC, and "
          "their traces are validated against SD2.tla (SD2Trace.tla)", "DESIGN.md §7 C04",
          "TLA+ two-stack spec + TLC exhaustive check of the property monitor Mon_C04; monitor pass and trace validation of real "
